@@ -38,6 +38,27 @@ PROPS['C08'] = dict(
     decided=[], not_decided=['Gershgorin bound vs true spectral radius (theorem about the formula)', 'power-method bound'],
     trusted=COMMON_TRUST)
 
+
+def _bounded(pid, what, not_decided):
+    PROPS[pid] = dict(
+        level='other',
+        claim='Bounded contract check (' + what + '): function contracts enforced by CBMC on the real function bodies for ALL inputs up to a stated size (structure and values symbolic), index-safety obligations included; units that could be closed with inductive loop contracts are proved without bound and are listed separately in the evidence.',
+        note='Bounds per unit are listed in the evidence (units[].mode).',
+        technique='CBMC code contracts on function bodies extracted from /repo: inductive (dfcc, loop contracts) where invariants are quantifier-free, otherwise harness-enforced contract with loops unwound (bounded)',
+        explanation='Contracts on the functions the property depends on; see units[] for mode and bound of each unit.',
+        decided=[], not_decided=not_decided, trusted=COMMON_TRUST)
+
+
+_bounded('C04', 'aggregates partition the grid; tentative prolongation structure', [])
+_bounded('C06', 'relaxation sweeps', [])
+_bounded('C09', 'level schedules of the parallel Gauss-Seidel / ILU solves', [])
+_bounded('C10', 'memory safety and frame obligations of every unit', [])
+_bounded('C13', 'block / complex adapters', [])
+_bounded('C16', 'reordering and skyline LU structure', [])
+_bounded('C17', 'matrix adapters', [])
+_bounded('C19', 'binary reader safety', [])
+PROPS['C10']['safety_only'] = True
+
 NOT_APPLICABLE = {
     'C01': 'units not built yet (planned: typestate contracts on the solver bodies)',
     'C02': 'units not built yet (planned: typestate + trace contracts on amg::cycle/apply)',
